@@ -76,6 +76,8 @@ func (n c10Node) tick() string {
 		return "|changeDetect('c')"
 	case "deleteDim":
 		return "|delete().tag('g')"
+	case "flatten":
+		return "|flatten().on('p')"
 	case "stateCount":
 		return fmt.Sprintf("|stateCount(lambda: \"a\" > %d)", n.X)
 	case "stateDuration":
@@ -100,6 +102,9 @@ func c10Gen(c *Ctx) *c10Scenario {
 			}
 			if k == "shift" && len(chain) > 0 && chain[len(chain)-1].Kind == "shift" {
 				k = "sample" // shift cannot be chained on a shift node (the DSL rejects it at define time)
+			}
+			if i == n-1 && !dropped && g.Chance(1, 8) {
+				k = "flatten" // creates dynamically named fields: only at the end of a chain
 			}
 			nd := c10Node{Kind: k, X: g.Intn(6), Flag: g.Bool()}
 			if k == "evalOnly" || k == "evalKeepList" || k == "evalTag" {
@@ -228,6 +233,22 @@ func (n c10Node) apply(in []c10P) []c10P {
 			q.dims = "h"
 			out = append(out, q)
 		}
+	case "flatten":
+		// the points of one group with the same time become one point whose fields are named <value of p>.<field>
+		// (a later point with the same p overwrites); it is emitted once a point with a later time has arrived
+		var cur *c10P
+		for _, p := range in {
+			if cur != nil && p.t > cur.t {
+				out = append(out, *cur)
+				cur = nil
+			}
+			if cur == nil {
+				cur = &c10P{t: p.t, fields: map[string]interface{}{}, tags: map[string]string{"h": p.tags["h"]}}
+			}
+			for k, v := range p.fields {
+				cur.fields[p.tags["p"]+"."+k] = v
+			}
+		}
 	case "changeDetectOpt":
 		// consecutive duplicates of the field are discarded; a point without the field is neither emitted nor a change
 		var last interface{}
@@ -353,7 +374,7 @@ func runC10(c *Ctx) Verdict {
 			go func(gi int, pts []c10In) {
 				defer wg.Done()
 				for _, p := range pts {
-					tags := fmt.Sprintf("g=g%d,h=h%d", gi, gi)
+					tags := fmt.Sprintf("g=g%d,h=h%d,p=p%d", gi, gi, p.A%2)
 					if p.HasK {
 						tags += ",k=kv"
 					}
@@ -398,10 +419,17 @@ func runC10(c *Ctx) Verdict {
 				return Fail("harness/unexpected-batch", "stream branch produced a batch")
 			}
 			p := c10P{tags: o.Copy.Tags, fields: o.Copy.Fields, t: o.Copy.TimeNs / 1e9, dims: strings.Join(o.Copy.Dims, "+")}
+			if chain[len(chain)-1].Kind == "flatten" {
+				// the documentation shows the fields and the time of a flattened point; which tags it keeps is not compared
+				p = c10P{tags: map[string]string{"h": o.Copy.Tags["h"]}, fields: o.Copy.Fields, t: p.t}
+			}
 			got[o.Copy.Tags["h"]] = append(got[o.Copy.Tags["h"]], p.canon())
 			// aliasing: the live message must still equal the copy taken when the sink saw it
 			live := harness.CopyPoint(o.Point)
 			lp := c10P{tags: live.Tags, fields: live.Fields, t: live.TimeNs / 1e9, dims: strings.Join(live.Dims, "+")}
+			if chain[len(chain)-1].Kind == "flatten" {
+				lp = c10P{tags: map[string]string{"h": live.Tags["h"]}, fields: live.Fields, t: lp.t}
+			}
 			if lp.canon() != p.canon() {
 				v := Fail("aliasing/mutated-after-delivery", "a message delivered to branch %d was modified afterwards (a later node or a sibling branch changed it in place)\nwhen seen: %s\nat the end: %s\nscript:\n%s", b, p.canon(), lp.canon(), sc.Script)
 				v.Shape = map[string]interface{}{"clause": "aliasing"}
@@ -411,7 +439,7 @@ func runC10(c *Ctx) Verdict {
 		for gi, pts := range sc.Groups {
 			var in []c10P
 			for _, p := range pts {
-				q := c10P{tags: map[string]string{"g": fmt.Sprintf("g%d", gi), "h": fmt.Sprintf("h%d", gi)}, fields: map[string]interface{}{"a": int64(p.A), "f": float64(p.F) / 10, "s": p.S}, t: int64(p.T), dims: "g+h"}
+				q := c10P{tags: map[string]string{"g": fmt.Sprintf("g%d", gi), "h": fmt.Sprintf("h%d", gi), "p": fmt.Sprintf("p%d", p.A%2)}, fields: map[string]interface{}{"a": int64(p.A), "f": float64(p.F) / 10, "s": p.S}, t: int64(p.T), dims: "g+h"}
 				if p.HasK {
 					q.tags["k"] = "kv"
 				}
@@ -470,10 +498,10 @@ func init() {
 	Register(&Prop{
 		ID:  "C10",
 		Run: runC10,
-		Rule: "case = a stem from().groupBy('g','h') forked into 2-3 sibling branches (each its own goroutines), every branch a chain of 1-3 nodes from where, eval (as + keep() / keep(list) / no keep / tags()), default, delete (fields, tags, and the first group-by dimension), shift, sample, derivative (unit, nonNegative, as), changeDetect (also on a field that some points lack), stateCount, stateDuration (units 500ms/1s/2s/1m) with generated parameters; outputs are compared with their group-by dimensions, over 1-3 groups of 1-8/16 points (int, float and string fields, an optional tag, repeated timestamps), one concurrent writer per group; " +
+		Rule: "case = a stem from().groupBy('g','h') forked into 2-3 sibling branches (each its own goroutines), every branch a chain of 1-3 nodes from where, eval (as + keep() / keep(list) / no keep / tags()), default, delete (fields, tags, and the first group-by dimension), shift, sample, derivative (unit, nonNegative, as), changeDetect (also on a field that some points lack), stateCount, stateDuration (units 500ms/1s/2s/1m), flatten().on(tag) as a last node, with generated parameters; outputs are compared with their group-by dimensions, over 1-3 groups of 1-8/16 points (int, float and string fields, an optional tag, repeated timestamps), one concurrent writer per group; " +
 			"non-trivial = the reference produces output on some branch; distinct = distinct (scenario, interleaving signature) pairs",
 		Real:        []string{"WhereNode, EvalNode, DefaultNode, DeleteNode, ShiftNode, SampleNode, DerivativeNode, ChangeDetectNode, StateTracking nodes", "edge forwarding (the same message object goes to every child edge), GroupedConsumer, tick/stateful", "FromNode/groupBy, LogNode, TaskMaster, httpd write endpoint"},
 		Stub:        []string{"log sink at the end of every branch: keeps a deep copy taken on arrival and the live message"},
-		Assumptions: []string{"the reference interpreter follows the node documentation in pipeline/*.go", "flatten, combine, groupBy re-grouping and the batch forms of these nodes are not covered", "whether a sibling's in-place mutation is visible depends on which branch runs first, which is what the simulator varies"},
+		Assumptions: []string{"the reference interpreter follows the node documentation in pipeline/*.go", "flatten only as the last node of a chain and compared by time and fields; combine, groupBy re-grouping and the batch forms of these nodes are not covered", "whether a sibling's in-place mutation is visible depends on which branch runs first, which is what the simulator varies"},
 	})
 }
